@@ -23,6 +23,9 @@ from unittest.mock import Mock
 from warnings import warn
 from weakref import WeakKeyDictionary, WeakValueDictionary
 
+if sys.version_info >= (3, 10):
+    from types import UnionType
+
 # Python 3.8+
 try:
     from typing_extensions import Literal
@@ -789,6 +792,9 @@ def check_type(argname: str, value, expected_type, memo: Optional[_TypeCheckMemo
     elif isinstance(expected_type, TypeVar):
         # Only happens on < 3.6
         check_typevar(argname, value, expected_type, memo)
+    elif sys.version_info >= (3, 10) and isinstance(expected_type, UnionType):
+        # PEP 604 unions, `X | Y`. These have `__args__` but no `__origin__`.
+        check_union(argname, value, expected_type, memo)
     elif isinstance(expected_type, Literal.__class__):
         # Only happens on < 3.7 when using Literal from typing_extensions
         check_literal(argname, value, expected_type, memo)
